@@ -296,6 +296,9 @@ func checkC08(c *Ctx) {
 		r.Undecided("C08.c", "parseAtom", "definition", "fc", "anchor function not found")
 	}
 	checkBinOpEmission(c, f)
+	// (d) the other reading of `<`
+	r.Rule("C08.d", "an operator spelling that begins with `<` directly after a name stays an operator: the adjacency test hands the position to the tolerant type-list parser, which reads a list only at a real LT token", 2)
+	checkTypeArgumentPosition(c, f, "C08.d")
 }
 
 // checkBinOpEmission: binOpToGo = "(" Lhs Op Rhs ")" (always parenthesised, operands in order).
